@@ -35,7 +35,7 @@ def plan(tier):
 
 
 def n_cases(tier):
-    return 200 if tier == 'thorough' else 40
+    return 500 if tier == 'thorough' else 40
 
 
 DELAYS = {}
